@@ -448,7 +448,7 @@ class World:
             viol.append((f'C15|signer|{label}|{clause}', what))
         want = self.expected_signer(ref_args)
         try:
-            signer = self.kc.get_signer(dict(lib_args))
+            signer = self.kc.get_signer(lib_args if label.endswith('kept-arguments') else dict(lib_args))
         except (KeyError, ValueError) as e:
             if want is not None:
                 bad(f'refused:{type(e).__name__}@{tb_where(e)}', f'get_signer({label}) raised {e!r} although the selected key and certificate exist')
@@ -483,9 +483,16 @@ class World:
     def check_all_signers(self, viol):
         L = nb('/custom/locator')
         forms = [('default', {}, {})]
+        # an application that keeps its signing-argument dictionaries and hands the same objects in again after every change
+        if not hasattr(self, 'kept_args'):
+            self.kept_args = {'': {}}
+            for idk, u in IDN.items():
+                self.kept_args[idk] = {'identity': u}
+        forms.append(('default|kept-arguments', self.kept_args[''], {}))
         for idk, u in IDN.items():
             ib = nb(u)
             forms.append((f'identity', {'identity': u}, {'identity': ib}))
+            forms.append((f'identity|kept-arguments', self.kept_args[idk], {'identity': ib}))
             i = self.ref.get(ib)
             if i:
                 for kn in i['order']:
